@@ -2531,7 +2531,7 @@ def simplify_transposes(source: str) -> str:
 
 def _always_raises(node: ast.AST) -> bool:
     """Determine if node is an expression made of literals only that has no value, like 1 / 0."""
-    if any(isinstance(child, (ast.Name, ast.Attribute)) for child in ast.walk(node)):
+    if not core.is_made_of_literals(node):
         return False
 
     try:
